@@ -88,6 +88,14 @@ def parseOp (toks : List String) (obs : String) : Option Op :=
     let ctx ← parseCtx (arg a "ctx")
     let dl : Option Int := if arg a "dl" == "none" then none else (arg a "dl").toInt?
     pure (.pick call pn (arg a "m") ctx dl (parseReq (arg a "req")))
+  | "pickhold" :: rest => do
+    let a := args rest
+    let call ← (arg a "call").toNat?
+    let pn ← (arg a "picker").toNat?
+    let ctx ← parseCtx (arg a "ctx")
+    let dl : Option Int := if arg a "dl" == "none" then none else (arg a "dl").toInt?
+    pure (.pickHold call pn (arg a "m") ctx dl (parseReq (arg a "req")))
+  | "resume" :: rest => (arg (args rest) "call").toNat?.map .resume
   | "ctxdone" :: rest => (arg (args rest) "call").toNat?.map .ctxdone
   | "done" :: rest => do
     let a := args rest
@@ -225,7 +233,10 @@ def handle (sess : Sess) (rep : Report) (ln : Nat) (toks : List String) (obs : S
     | none => (sess, rep.msg s!"BAD line={ln}")
     | some op =>
       -- monitors and evidence counters judge what the implementation printed
-      let (mon, fails, hits) := sess.mon.observe op (obs.splitOn " ; ") (parseDigest obs)
+      let monOp : Op := match op with
+        | .pickHold call pn m ctx dl req => if (obs.splitOn " ; ").contains "held" then op else .pick call pn m ctx dl req
+        | _ => op
+      let (mon, fails, hits) := sess.mon.observe monOp (obs.splitOn " ; ") (parseDigest obs)
       let rep := fails.foldl (fun rep (p, c) =>
         { rep.msg s!"MONITOR property={p} clause={c} line={ln}" with monitorFails := rep.monitorFails + 1 }) rep
       let rep := hits.foldl (fun rep h => rep.bump h) rep
